@@ -312,7 +312,8 @@ def default_op(profile):
 
 
 def bundle_op(profile):
-    return name_ref(profile, "id").map(lambda n: ["bundle", n])
+    return st.builds(lambda n, how: ["bundle", n, how], name_ref(profile, "id"),
+                     st.sampled_from(["bundle", "bundle", "add_bundle"]))
 
 
 def add_attrs_op(profile):
